@@ -180,7 +180,22 @@ func (c *Contract) mentions(prop string) bool {
 			return true
 		}
 	}
+	for _, cs := range c.LoopEdges {
+		for _, cl := range cs {
+			if contains(cl.Props, prop) {
+				return true
+			}
+		}
+	}
 	return false
+}
+
+// mentionsProp: the clause belongs to prop (its own tags, or the function's when it has none).
+func (cl *Clause) mentionsProp(prop string, fnProps []string) bool {
+	if len(cl.Props) > 0 {
+		return contains(cl.Props, prop)
+	}
+	return contains(fnProps, prop)
 }
 
 type FuncReport struct {
@@ -411,6 +426,14 @@ func (g *Gen) check(prop, tier, outDir string, timeoutMS, seed, par int, verbose
 					Clause: fmt.Sprintf("the contract of %s has invariants for loop %d, which no longer exists: the inductive argument cannot be replayed", k, ord)})
 			}
 		}
+		for ord, ecs := range c.LoopEdges {
+			for _, ec := range ecs {
+				if fv.edgeHits[ec] == 0 && ec.mentionsProp(prop, c.Props) {
+					res.AnchorLost = append(res.AnchorLost, &OblReport{Name: fmt.Sprintf("%s#anchor#loop%d-backedge-%s-missing", k, ord, ec.Label), Kind: "anchor", Expect: "unsat", Verdict: "not-generated",
+						Clause: fmt.Sprintf("the contract of %s has a back-edge clause for loop %d that no edge of the current code matches", k, ord)})
+				}
+			}
+		}
 		fr := &FuncReport{Func: k, Notes: fv.notes, Unsupported: fv.unsupported}
 		for _, u := range fv.unsupported {
 			if strings.HasPrefix(u, "spec error") {
@@ -435,6 +458,15 @@ func (g *Gen) check(prop, tier, outDir string, timeoutMS, seed, par int, verbose
 		for _, o := range fv.obls {
 			if !contains(o.Props, prop) || specBroken {
 				continue // a function whose contract no longer resolves yields no checkable obligations
+			}
+			if c.SafetyOnly[prop] && len(o.Props) > 0 && len(c.Props) > 0 && &o.Props[0] == &c.Props[0] {
+				// the obligation inherits the function's property list, and the function is in this check for its
+				// safety obligations only
+				switch o.Kind {
+				case "safety", "alloc-bound", "call-pre", "lock", "canary", "requires-sat":
+				default:
+					continue
+				}
 			}
 			if c.Partial && tier != "thorough" && (o.Kind == "safety" || o.Kind == "lock" || o.Kind == "call-pre" || o.Kind == "alloc-bound") {
 				// not claimed for a partial function (decided where possible in the thorough tier only)
